@@ -71,6 +71,21 @@ static int from_lib(void *ra)
     return 0;
 }
 
+/* allocation failpoint: the n-th allocation requested by library code (counted from arming)
+ * returns NULL (posix_memalign: ENOMEM) exactly once */
+static volatile long fp_countdown, fp_fired, fp_seen;
+static int fp_hit(void *ra)
+{
+    if (fp_countdown <= 0 || inside) return 0;
+    if (!from_lib(ra)) return 0;
+    __sync_fetch_and_add(&fp_seen, 1);
+    if (__sync_sub_and_fetch(&fp_countdown, 1) == 0) { fp_fired = 1; return 1; }
+    return 0;
+}
+void ledger_fail_arm(long nth) { fp_fired = 0; fp_seen = 0; fp_countdown = nth; }
+long ledger_fail_disarm(void) { fp_countdown = 0; return fp_fired; }
+long ledger_fail_seen(void) { return fp_seen; }
+
 static void rec_add(void *p, size_t n, int lib)
 {
     if (!p) return;
@@ -106,12 +121,14 @@ static int rec_del(void *p, int by_lib)
 
 void *malloc(size_t n)
 {
+    if (fp_hit(__builtin_return_address(0))) { errno = ENOMEM; return NULL; }
     void *p = __libc_malloc(n);
     if (!inside) { inside++; rec_add(p, n, from_lib(__builtin_return_address(0))); inside--; }
     return p;
 }
 void *calloc(size_t a, size_t b)
 {
+    if (fp_hit(__builtin_return_address(0))) { errno = ENOMEM; return NULL; }
     void *p = __libc_calloc(a, b);
     if (!inside) { inside++; rec_add(p, a * b, from_lib(__builtin_return_address(0))); inside--; }
     return p;
@@ -119,6 +136,7 @@ void *calloc(size_t a, size_t b)
 void *realloc(void *o, size_t n)
 {
     int lib = from_lib(__builtin_return_address(0));
+    if (fp_hit(__builtin_return_address(0))) { errno = ENOMEM; return NULL; }
     if (o && !inside) { inside++; rec_del(o, 0); inside--; }
     void *p = __libc_realloc(o, n);
     if (!inside) { inside++; rec_add(p, n, lib); inside--; }
@@ -126,18 +144,21 @@ void *realloc(void *o, size_t n)
 }
 void *memalign(size_t al, size_t n)
 {
+    if (fp_hit(__builtin_return_address(0))) { errno = ENOMEM; return NULL; }
     void *p = __libc_memalign(al, n);
     if (!inside) { inside++; rec_add(p, n, from_lib(__builtin_return_address(0))); inside--; }
     return p;
 }
 void *aligned_alloc(size_t al, size_t n)
 {
+    if (fp_hit(__builtin_return_address(0))) { errno = ENOMEM; return NULL; }
     void *p = __libc_memalign(al, n);
     if (!inside) { inside++; rec_add(p, n, from_lib(__builtin_return_address(0))); inside--; }
     return p;
 }
 int posix_memalign(void **out, size_t al, size_t n)
 {
+    if (fp_hit(__builtin_return_address(0))) return ENOMEM;
     void *p = __libc_memalign(al, n);
     if (!p) return ENOMEM;
     if (!inside) { inside++; rec_add(p, n, from_lib(__builtin_return_address(0))); inside--; }
@@ -189,6 +210,9 @@ int ledger_leakcheck(void) { return __lsan_do_recoverable_leak_check(); }
 int ledger_leakcheck(void) { return 0; }
 #endif
 int  ledger_available(void) { return 0; }
+void ledger_fail_arm(long nth) { (void)nth; }
+long ledger_fail_disarm(void) { return 0; }
+long ledger_fail_seen(void) { return 0; }
 void ledger_refresh(void) {}
 void ledger_get(ledger_t *l) { memset(l, 0, sizeof *l); }
 
